@@ -78,10 +78,8 @@ Definition seq_sched (n : nat) : list (nat * nat) := repeat (0, 1)%nat (n - 1).
 
 Definition conn_ends (cs : list conn) : list spin := map fst cs ++ map snd cs.
 
-Definition allpins (live : list (lst K)) : list spin := concat (map (@l_pins K) live).
-
 Definition solve (net : netlist K) (sched : list (nat * nat)) : result (lst K) :=
-  let live0 := map lst_of_comp (comps net) in
+  let live0 := comps net in
   (* one connection per pin; structures are distinct; connections join pins that exist *)
   if negb (nodupb (conn_ends (conns net))) then Err EAlreadyConnected else
   if negb (nodupb (allpins live0)) then Err ENameClash else
@@ -103,4 +101,4 @@ End Solve.
 
 Arguments links {K}. Arguments part {K}. Arguments assemble {K}. Arguments join {K}.
 Arguments merge_step {K}. Arguments solve_sched {K}. Arguments solve {K}. Arguments coeff {K}.
-Arguments dlst {K}. Arguments allpins {K}.
+Arguments dlst {K}.
